@@ -723,6 +723,12 @@ def run(ctx: Ctx):
     r_params(ctx, model)
     r_data(ctx, model)
     from ..sites import no_memoisation
+    # hand-written caches: every function of the module, as an entry point, writes no module-level object (shared with C04 R-module) -
+    # adsorbate / material constants looked up once and kept per name or temperature would answer for a later, different isotherm
+    from ..effects import Effects
+    from .C04 import r_module
+    _m = load(ctx.root)
+    r_module(ctx, _m, Effects(_m), [f for n_, f in _m.module("pygaps.characterisation.psd_micro").functions.items()], prop="C17", rule="H-fresh", write_once=[], memo=False)
     ctx.rule("H-fresh: no caching decorator on any function of pygaps.characterisation.")
     no_memoisation(ctx, load(ctx.root), "C17", "H-fresh", ('pygaps.characterisation.',),
                    "cached potentials / constants survive a change of the adsorbate or material parameters")
